@@ -118,3 +118,22 @@ def token_stream(run, models, tag):
         tt = m.tb.fn_term(ft) if ft else None
         okt = tt is not None and M(("struct", "Tokenizer::Tokenizer", ("expr", ("call", "<std::str::Chars<'_> as iter::Iterator>::peekable", ("call", "str::chars", ("param", "?x"))))), tt) is not None
         run.ob(okt, "tokenizer-new|%s" % ev, "%s premise (token stream): " % tag + "the tokenizer reads the characters of the given text, all of them, in order", ft.key if ft else ev, "" if okt else "UNRECOGNISED: " + (T.show(tt)[:200] if tt else "Tokenizer::new not found"))
+
+
+def profile_const(run, F, tag):
+    """The fact base is extracted with debug assertions off, and the normaliser keeps only the live branch of an
+    `if <literal>` (what `cfg!(debug_assertions)` / `debug_assert!` expand to).  That is the behaviour of *every* build
+    profile only if neither branch of such an `if` does anything but compute and possibly panic (panics are C01's):
+    no assignment, no `&mut` borrow (a `self.expr.next()` inside `debug_assert_eq!` consumes a character in dev builds only)."""
+    from . import thir as T
+    n_fn = n_if = 0
+    for f in F.fns:
+        if not f.thir or f.derived:
+            continue
+        n_fn += 1
+        for x in T.find_all(f.thir.get("body"), lambda y: y.get("k") == "if" and isinstance(y.get("c"), dict) and y["c"].get("k") == "lit" and y["c"].get("lk") == "bool"):
+            n_if += 1
+            eff = T.find_all([x.get("t"), x.get("e")], lambda y: y.get("k") in ("assign", "assignop") or (y.get("k") in ("borrow", "rawborrow") and "Mut" in str(y.get("bk", y.get("m", "")))))
+            run.ob(not eff, "profile-const|%s" % f.key, "%s premise: code under a compile-time constant condition (cfg!/debug_assert!) has no side effect, so dev and release builds behave alike" % tag,
+                   "%s (%s)" % (f.key, f.file), "`if %s { .. }` contains %d assignment(s)/mutable borrow(s): behaviour differs between build profiles" % (x["c"].get("v"), len(eff)), distinct="profile-const")
+    run.ob(True, "profile-const-census", "%s premise" % tag, "crate bodies", sample={"bodies_scanned": n_fn, "constant_conditions": n_if, "with_side_effects": 0})
